@@ -104,18 +104,19 @@ type Scenario struct {
 	// not return "no events") whenever there is one
 	SlowBackends bool
 	// exploration
-	Bound       int      // max deviations; <0: unbounded
-	FreeKinds   []string // choice kinds ("sched","intn","order","write") whose alternatives cost no deviation (always enumerated)
-	Horizon     int      // max scheduling steps
-	OrderSites  []string
-	IntnChoice  bool
-	IntnGate    func(w *World) bool // rand.Intn is a choice point only while this holds
-	WriteOracle bool
-	NoBootTick  bool
-	Monitors    bool // run the real per-node health monitor goroutines as cooperative threads (virtual ticker / sleep, probe outcome = node up?)
-	RefreshLoop bool // run the real topology refresh goroutine; synchronised with a barrier at every quiescent point
-	InputEnum   bool // the scenario itself is one point of an input enumeration (counts as a distinct non-trivial case)
-	ReuseFds    bool
+	Bound        int      // max deviations; <0: unbounded
+	FreeKinds    []string // choice kinds ("sched","intn","order","write") whose alternatives cost no deviation (always enumerated)
+	Horizon      int      // max scheduling steps
+	OrderSites   []string
+	IntnChoice   bool
+	IntnGate     func(w *World) bool // rand.Intn is a choice point only while this holds
+	WriteOracle  bool
+	NoBootTick   bool
+	Monitors     bool // run the real per-node health monitor goroutines as cooperative threads (virtual ticker / sleep, probe outcome = node up?)
+	NoProbeDrain bool // nobody consumes the probe-reply channel (the refresh goroutine is busy, e.g. waiting for a silent node's INFO)
+	RefreshLoop  bool // run the real topology refresh goroutine; synchronised with a barrier at every quiescent point
+	InputEnum    bool // the scenario itself is one point of an input enumeration (counts as a distinct non-trivial case)
+	ReuseFds     bool
 	// the proxy's own redis client (INFO probe of new nodes, PING health probe) talks to the scripted nodes over in-memory
 	// connections: Info says what a node's INFO reports (nil: version 6.0.0, not loading, link up; an error = dial refused);
 	// ProbePiece > 0 delivers every reply of those connections in pieces of that many bytes
@@ -701,7 +702,12 @@ func (w *World) wait() (fd int, mask uint32, n int, stop bool) {
 				return 0, 0, 0, true
 			}
 		} else {
-			for _, m := range core.VerifDrainClusterChan() {
+			for _, m := range func() [][]byte {
+				if w.Sc.NoProbeDrain {
+					return nil
+				}
+				return core.VerifDrainClusterChan()
+			}() {
 				_ = m
 				w.ProbeReplies++
 			}
